@@ -52,6 +52,8 @@ fn supervise(id: &str, tier: Tier) -> i32 {
         let report = lqv_core::report::Report::new(id_static, tier, "exploration");
         report.set_rule("the engine process was killed while enumerating; the case was pinned down by re-running the journalled windows one case per process");
         report.evals(total_chunks.max(1));
+        report.sample(witness.clone());
+        report.family(lqv_core::report::FamilyStat { name: fam.clone(), cases: total_chunks, nontrivial: 0, skipped: 0, note: "journal entries (enumeration windows) written before the engine died".into() });
         report.violation(&format!("{id}|abort|{fam}"), idx, witness, format!("case {idx} of family {fam} kills the process ({status}): an abort (stack overflow, allocation failure, double panic) instead of a result"));
         let code = report.finish();
         cleanup();
